@@ -465,7 +465,7 @@ func execC19(t *testing.T, w *core.World, p *run.Plan, r *run.Result) {
 			// one cell of the state-init container filled with one-bits (or zeros): unary lengths and dictionary
 			// labels run to the end of the cell
 			if raw, err := base64.StdEncoding.DecodeString(proof.Proof.StateInit); err == nil {
-				proof.Proof.StateInit = base64.StdEncoding.EncodeToString(bocFillCell(raw, aB, aC))
+				proof.Proof.StateInit = base64.StdEncoding.EncodeToString(bocFixCRC(bocFillCell(raw, aB, aC)))
 			}
 		case 22:
 			// the same account hash under another workchain number, also one that is congruent modulo 2^8 or 2^16
@@ -479,7 +479,7 @@ func execC19(t *testing.T, w *core.World, p *run.Plan, r *run.Result) {
 			// descriptor-level corruption of the state-init container (level mask, exotic flag, reference count,
 			// data length, exotic type of one cell)
 			if raw, err := base64.StdEncoding.DecodeString(proof.Proof.StateInit); err == nil {
-				proof.Proof.StateInit = base64.StdEncoding.EncodeToString(bocMutateDescriptor(raw, aB, aC, aB>>3))
+				proof.Proof.StateInit = base64.StdEncoding.EncodeToString(bocFixCRC(bocMutateDescriptor(raw, aB, aC, aB>>3)))
 			}
 		case 20:
 			// a contract whose code is in the server's table of wallet codes but whose data layout it cannot read
